@@ -190,7 +190,7 @@ pub fn check(case: &Case, reg: &qrun::Registry) -> Result<Facts, (String, String
     let mut cfgs: Vec<(usize, usize, Vec<u8>)> = vec![(1, 1000, vec![])];
     cfgs.extend(case.cfgs.iter().map(|(w, qi, s)| (*w as usize, QUANTA[*qi as usize % QUANTA.len()], s.clone())));
     for (workers, q, schedule) in cfgs {
-        let run = sim::run_program(&bc, SimCfg { workers, quanta: vec![q], schedule: schedule.clone(), max_moves: 1_500_000 }, reg, None, |_, _| Ok(()));
+        let run = sim::run_program(&bc, SimCfg { workers, quanta: vec![q], schedule: schedule.clone(), max_moves: 1_500_000, env_slow: 0 }, reg, None, |_, _| Ok(()));
         facts.runs += 1;
         facts.multi_worker |= workers >= 2;
         let desc = format!("workers={workers} quantum={q} schedule={}", hex(&schedule));
